@@ -267,6 +267,24 @@ def cache_field_is_sound(prog: Program, cname: str, field: str, compared: Set[st
                     if fi.cls is not None and fi.cls.name == cname and fi.name == "__hash__" and isinstance(t.value, ast.Name) and t.value.id == fi.params[0]:
                         continue
                     return "%s writes .%s (`%s`): a memoised hash that travels with / survives later in-place edits goes stale" % (fi.key, field, norm(node)[:70])
+    # every method that assigns compared state in place must drop the memo
+    for fi in prog.all_functions():
+        if isinstance(fi.node, ast.Lambda) or fi.cls is None or fi.name == "__init__" or not fi.params:
+            continue
+        if not (fi.cls.name == cname or prog.is_subclass(fi.cls.name, cname)):
+            continue
+        me = fi.params[0]
+        writes, resets = [], False
+        for node in ast.walk(fi.node):
+            tgts = node.targets if isinstance(node, ast.Assign) else [node.target] if isinstance(node, (ast.AugAssign, ast.AnnAssign)) else []
+            for t in tgts:
+                if isinstance(t, ast.Attribute) and isinstance(t.value, ast.Name) and t.value.id == me:
+                    if t.attr in compared:
+                        writes.append(norm(node)[:60])
+                    if t.attr == field and isinstance(getattr(node, "value", None), ast.Constant) and node.value.value is None:
+                        resets = True
+        if writes and not resets:
+            return "%s assigns compared state in place (`%s`) and leaves the memoised hash .%s as it was: an object hashed before the call keeps a stale hash" % (fi.key, writes[0], field)
     return None
 
 
